@@ -16,7 +16,7 @@ RULE = ('every validator set of <= 3 members with weights in 1..3 (quick: a seed
         '(thorough 4, sampled) over {valid_i, invalid_i, other-block_i, foreign, foreign-invalid}; plus weight patterns hitting exactly 2/3 '
         'and random larger sets (up to 12 validators); distinct = distinct (weights, item sequence)')
 ASSUMPTIONS = ['signature items are labelled by construction with PyNaCl (valid = signed by that validator over this block id; invalid = one '
-               'flipped bit; other = signed over a different block id; foreign = key outside the set)',
+               'flipped bit; other = signed over a different block id; long = a signature over a longer message ending in this block\'s payload, followed by the extra bytes; short / padded = 63 / 65 bytes; foreign = key outside the set)', 'validator descriptors are built directly or taken from ValidatorDescr.deserialize (weights up to 2^64 - 1)',
                'a set in which a signer repeats but whose distinct signers already exceed 2/3 may be accepted or rejected (the property allows '
                'either reading of "counted more than once")', 'weights below 2^20 use TLC integers; 64-bit weights are limb vectors compared by TonNat (lemmas in MC_Nat)']
 MAGIC_ID = b'\xc6\xb4\x13\x48'
@@ -55,13 +55,32 @@ class World:
             b = bytearray(sig)
             b[self.rng.randrange(64)] ^= 1 << self.rng.randrange(8)
             sig = bytes(b)
+        if k == 'long':
+            # the validator signed a LONGER message that ends in this block's payload; the signature field carries that signature
+            # followed by the extra prefix (more than 64 bytes): not a signature over this block's identifier
+            pre = b'I do NOT endorse the following block: '[:self.rng.randint(1, 38)]
+            sig = key.sign(pre + self.tosign).signature + pre
+        elif k == 'short':
+            sig = sig[:63]
+        elif k == 'padded':
+            sig = sig + bytes([self.rng.getrandbits(8)])
         hx = self.node_id(key).hex()
         # hex spelling is free: the same node id may arrive in any letter case
         hx = self.rng.choice([hx, hx.upper(), ''.join(c.upper() if self.rng.random() < 0.5 else c for c in hx)])
         return {'node_id_short': hx, 'signature': sig}
 
-    def run(self, weights, items, layout=False):
-        nodes = [ValidatorDescr('validator', SigPubKey(self.keys[j].verify_key.encode()), w) for j, w in enumerate(weights)]
+    def run(self, weights, items, layout=False, parsed=False):
+        if parsed:
+            # the validator descriptors as the library's own parser hands them over (validator#53 / validator_addr#73 cells)
+            from pytoniq_core.boc import Builder
+            nodes = []
+            for j, w in enumerate(weights):
+                b = Builder().store_uint(0x73 if j % 2 else 0x53, 8).store_uint(0x8e81278a, 32).store_bytes(self.keys[j].verify_key.encode()).store_uint(w, 64)
+                if j % 2:
+                    b.store_bytes(bytes(32))
+                nodes.append(ValidatorDescr.deserialize(b.end_cell().begin_parse()))
+        else:
+            nodes = [ValidatorDescr('validator', SigPubKey(self.keys[j].verify_key.encode()), w) for j, w in enumerate(weights)]
         rec = {'op': 'sigs', 'weights': list(weights), 'items': [{'s': s, 'k': k} for s, k in items]}
         if any(x >= 1 << 20 for x in weights):
             # 64-bit weights: 4 limbs of 20 bits each, most significant first (TLC integers are 32-bit)
@@ -112,9 +131,9 @@ def generate(tier, seed, ctx):
             items.insert(rng.randrange(len(items) + 1), (rng.choice(signers), 'valid'))      # duplicate
         elif mode < 0.3:
             items.insert(rng.randrange(len(items) + 1), (0, 'valid'))                          # foreign
-        elif mode < 0.4 and items:
+        elif mode < 0.5 and items:
             j = rng.randrange(len(items))
-            items[j] = (items[j][0], rng.choice(['invalid', 'other']))
+            items[j] = (items[j][0], rng.choice(['invalid', 'other', 'long', 'short', 'padded', 'long']))
         out.append(w.run(weights, items, layout=rng.random() < 0.05))
     # main-net scale weights (total around 2^60) within a few units of exactly two thirds: 3 * signed - 2 * total = target
     for _ in range(40 if q else 800):
@@ -132,7 +151,19 @@ def generate(tier, seed, ctx):
         if min(weights) <= 0 or 3 * sum(weights[j - 1] for j in signers) - 2 * sum(weights) != target:
             continue
         rng.shuffle(signers)
-        out.append(w.run(weights, [(s, 'valid') for s in signers], layout=False))
+        out.append(w.run(weights, [(s, 'valid') for s in signers], layout=False, parsed=rng.random() < 0.5))
+    # weights in the upper half of uint64 (sign bit of a 64-bit word set), descriptors taken from the parser
+    for _ in range(30 if q else 400):
+        n = rng.randint(1, 6)
+        weights = [rng.choice([1 << 63, (1 << 64) - 1, rng.randint(1 << 63, (1 << 64) - 1), rng.randint(1, 1 << 62), 1 << 59]) for _ in range(n)]
+        signers = [j + 1 for j in range(n) if rng.random() < 0.6]
+        rng.shuffle(signers)
+        out.append(w.run(weights, [(s, 'valid') for s in signers], parsed=True))
+    # a bare two-thirds minority completed by a signature over a longer message (every small shape)
+    for weights, good, bad in (([1, 1, 1], [1, 2], 3), ([2, 1], [1], 2), ([5, 5, 5, 1], [1, 2], 3), ([1], [], 1)):
+        for k in ('long', 'short', 'padded'):
+            out.append(w.run(weights, [(s, 'valid') for s in good] + [(bad, k)]))
+            out.append(w.run(weights, [(bad, k)] + [(s, 'valid') for s in good], parsed=True))
     for weights, signers in (([1, 1, 1], [1, 2]), ([2, 1], [1]), ([3, 3, 3], [1, 2]), ([1, 1, 1], [1, 2, 3]), ([2, 2, 2], [1, 2, 2]),
                              ([1, 2], [2, 2]), ([4, 1, 1], [1]), ([4, 1, 1], [1, 1]), ([], []), ([5], []), ([5], [1]), ([1, 1, 1], [1, 1, 1])):
         out.append(w.run(weights, [(s, 'valid') for s in signers], layout=True))
